@@ -351,6 +351,12 @@ func runC17s(rc *RunCtx) {
 		probe := !udp && G.Draw(6) == 0
 		d0 := time.Duration(G.Draw(8)) * unit
 		d1 := time.Duration(G.Draw(8)) * unit
+		// an authenticated connection whose request cannot be served: however it
+		// ends, its tunnel ends with it
+		oddTarget := 0
+		if G.Draw(4) == 0 {
+			oddTarget = 1 + G.Draw(4)
+		}
 		rc.D("tunnel %d: %v key=%s udp=%v probe=%v start+%v dur=%v", t, ip, key.ID, udp, probe, d0, d1)
 		simrt.GoNamed(fmt.Sprintf("c17s-tunnel-%d", t), func() {
 			simrt.Sleep(d0)
@@ -385,7 +391,21 @@ func runC17s(rc *RunCtx) {
 				cc.Write(payload(G, 70))
 			default:
 				enc := newEncoder(key)
-				wire := enc.Chunk(socksAddr(fmt.Sprintf("%s:7000", tgtIP)))
+				addr := socksAddr(fmt.Sprintf("%s:7000", tgtIP))
+				switch oddTarget {
+				case 1: // a domain name of length zero
+					addr = []byte{3, 0, 0, 80}
+				case 2: // an address the default policy refuses
+					addr = socksAddr("10.1.2.3:80")
+				case 3: // an address type that does not exist
+					addr = []byte{9, 1, 2, 3, 4, 0, 80}
+				case 4: // nobody listens there
+					addr = socksAddr(fmt.Sprintf("%s:7999", tgtIP))
+				}
+				if oddTarget > 0 {
+					simrt.Probe("authenticated_connection_with_an_unusable_target")
+				}
+				wire := enc.Chunk(addr)
 				mayAuth[42000+t] = true
 				cc.Write(wire)
 				wires = append(wires, wire)
